@@ -410,10 +410,20 @@ func (r *rwRT) coverShape(fn *ssa.Function, pos, kind string, in0 *astInput) {
 	r.account(in)
 	construct := in0.desc
 	accepted := 0
-	var fieldBad, deepBad, lossBad, stateBad, dupBad, kindBad []string
+	var fieldBad, deepBad, lossBad, stateBad, dupBad, kindBad, freeBad []string
 	var sampleAccept string
 	for _, o := range outs {
 		if o.Panicked {
+			if yieldFreeScenario(o.St.Labels) {
+				note, where := "", ""
+				for i := len(o.St.Events) - 1; i >= 0; i-- {
+					if o.St.Events[i].Kind == "panic" {
+						note, where = o.St.Events[i].Note, r.w.Pos(o.St.Events[i].Pos)
+						break
+					}
+				}
+				freeBad = append(freeBad, fmt.Sprintf("with every yield-freeness question answered \"no yield in it\" the statement is still rejected (panic %s at %s): %s", note, where, pathSummary(o)))
+			}
 			if os.Getenv("VERIF_DEBUG_PANICS") != "" {
 				for i := len(o.St.Events) - 1; i >= 0; i-- {
 					if o.St.Events[i].Kind == "panic" {
@@ -753,6 +763,13 @@ func (r *rwRT) coverShape(fn *ssa.Function, pos, kind string, in0 *astInput) {
 	} else {
 		c.check(accepted > 0, "RW.DISPATCH", construct, pos, fmt.Sprintf("%d accepting path(s), %d path(s) in total", accepted, len(outs)), "a statement of the supported subset is rejected on every path")
 	}
+	if _, unsup := unsupportedKinds[kind]; !unsup && !eitherWayKinds[kind] && !(kind == "BranchStmt" && strings.Contains(construct, "goto")) {
+		if len(freeBad) == 0 {
+			c.ok("RW.DISPATCH", construct+" (yield-free)", pos, "no path on which every yield-freeness question is answered \"no yield\" ends in a rejection: a statement of the supported subset that contains no yield is accepted wherever it stands in a generator")
+		} else {
+			c.bad("RW.DISPATCH", construct+" (yield-free)", pos, freeBad[0], freeBad...)
+		}
+	}
 	hasYieldLeaf, hasNested := false, false
 	for _, li := range in0.leaves {
 		hasYieldLeaf = hasYieldLeaf || li.yieldCapable
@@ -807,4 +824,27 @@ func unwrapDyn(a AV) AV {
 		return d.V
 	}
 	return a
+}
+
+// yieldFreeScenario: the path's oracle answers are those of a statement without any yield in it: every
+// yield-freeness test answered true, every "is this a yield / a delegation / does it contain one" test false.
+func yieldFreeScenario(labels []string) bool {
+	for _, l := range labels {
+		i := strings.LastIndex(l, "=")
+		if i < 0 {
+			continue
+		}
+		q, a := l[:i], l[i+1:]
+		switch {
+		case strings.HasPrefix(q, "mustNoYield("):
+			if a != "true" {
+				return false
+			}
+		case strings.HasPrefix(q, "isYieldCall("), strings.HasPrefix(q, "isYieldFromCall("), strings.HasPrefix(q, "containsYield("), strings.HasPrefix(q, "isCallStmtOf("):
+			if a != "false" {
+				return false
+			}
+		}
+	}
+	return true
 }
